@@ -12,8 +12,24 @@ import (
 const sdkTypes = "github.com/cosmos/cosmos-sdk/types."
 
 type kvWrite struct {
-	key []*Term
-	val Value // Slice (bytes or blob); nil = delete
+	key  []*Term
+	val  Value // Slice (bytes or blob); nil = delete
+	cond *Term // nil = unconditional; otherwise the write exists only where cond holds (vp.SetIf)
+}
+
+func (m *Machine) writeCond() *Term {
+	if len(m.guards) == 0 {
+		return nil
+	}
+	return m.tb.And(m.guards...)
+}
+
+func (m *Machine) matchWrite(w kvWrite, key []*Term) *Term {
+	c := m.bytesEq(w.key, key)
+	if w.cond != nil {
+		c = m.tb.And(w.cond, c)
+	}
+	return c
 }
 
 type StoreData struct {
@@ -93,7 +109,7 @@ func (m *Machine) storeGet(d *StoreData, key []*Term) Value {
 		if len(w.key) != len(key) {
 			continue
 		}
-		if m.decide(m.bytesEq(w.key, key)) {
+		if m.decide(m.matchWrite(w, key)) {
 			return w.val
 		}
 	}
@@ -133,12 +149,12 @@ func (s *SymStore) Invoke(m *Machine, method string, args []Value) Value {
 		if val.IsNil() {
 			panic(&goPanic{msg: "value is nil"})
 		}
-		s.data.writes = append(s.data.writes, kvWrite{key: key, val: cloneBytesValue(val)})
+		s.data.writes = append(s.data.writes, kvWrite{key: key, val: cloneBytesValue(val), cond: m.writeCond()})
 		s.data.nWrite++
 		return nil
 	case "Delete":
 		key := s.full(m, m.keyBytes(args[0]))
-		s.data.writes = append(s.data.writes, kvWrite{key: key, val: nil})
+		s.data.writes = append(s.data.writes, kvWrite{key: key, val: nil, cond: m.writeCond()})
 		s.data.nWrite++
 		return nil
 	case "Iterator", "ReverseIterator":
@@ -202,6 +218,9 @@ func (m *Machine) liveEntries(d *StoreData) ([][]*Term, []Value) {
 	var keys [][]*Term
 	var vals []Value
 	for _, w := range d.writes {
+		if w.cond != nil && !m.decide(w.cond) {
+			continue
+		}
 		found := -1
 		for i, k := range keys {
 			if len(k) != len(w.key) {
